@@ -56,6 +56,10 @@ AuxHashMap<A>* AuxHashMap<A>::deserialize(const void* bytes, size_t len,
   } else { // updatable
     lgArrInts = lgAuxArrInts;
   }
+  // at most 2^lgConfigK entries, so the table never grows beyond twice that
+  if (lgArrInts > lgConfigK + 1) {
+    throw std::invalid_argument("Invalid AuxHashMap array size: lgArrInts " + std::to_string(lgArrInts));
+  }
   
   const uint32_t configKmask = (1 << lgConfigK) - 1;
 
@@ -107,6 +111,10 @@ AuxHashMap<A>* AuxHashMap<A>::deserialize(std::istream& is, uint8_t lgConfigK,
     lgArrInts = HllUtil<A>::computeLgArrInts(HLL, auxCount, lgConfigK);
   } else { // updatable
     lgArrInts = lgAuxArrInts;
+  }
+  // at most 2^lgConfigK entries, so the table never grows beyond twice that
+  if (lgArrInts > lgConfigK + 1) {
+    throw std::invalid_argument("Invalid AuxHashMap array size: lgArrInts " + std::to_string(lgArrInts));
   }
 
   AuxHashMap<A>* auxHashMap = new (ahmAlloc(allocator).allocate(1)) AuxHashMap<A>(lgArrInts, lgConfigK, allocator);
